@@ -29,6 +29,15 @@ def run(ctx):
                       ("Watcher_d11.cfg", "removal names only the parent (D11)")]:
         r = vlib.tlc_expect_violation("Watcher", cfg, workers=2)
         ctx.add_tlc(f"negative control: {what}", r, negative=True)
+    # the id builder lives across notifications: the answer for a path must not depend on the paths converted before
+    r = vlib.tlc_expect_ok("WatcherSeq", "WatcherSeq.cfg", workers=2)
+    ctx.add_tlc("WatcherSeq.tla: one id builder across notifications (HistoryFree, PopToRootWorks), every path of <= 3 components", r)
+    if r.violated:
+        ctx.violation("C12/spec-seq", f"WatcherSeq.tla violates {r.violated}", {"tlc": r.trace})
+    for cfg, what in [("WatcherSeq_noreset.cfg", "the builder is reset only after a successful conversion (must fail HistoryFree)"),
+                      ("WatcherSeq_pop.cfg", "pop() of the only segment fails (must fail PopToRootWorks)")]:
+        r = vlib.tlc_expect_violation("WatcherSeq", cfg, workers=2)
+        ctx.add_tlc(f"negative control: {what}", r, negative=True)
     if not vlib.hooks_present():
         ctx.cov["note"] = "hooks absent: the private watcher pieces cannot be reached; only the specification was checked"
         ctx.cov["rule"] = "no implementation case could be run without the hook re-exports"
@@ -53,6 +62,32 @@ def run(ctx):
     ctx.cov["exhaustive"] = thorough
     for m in rep["mismatches"]:
         ctx.violation(f"C12/{m.get('what', '?')[:50]}:{m.get('kind', '')}", m.get("what"), {"mismatch": m})
+    # WatcherSeq.tla -> code: every history of two notifications (thorough: also random ones of four) through one real handler
+    for (cfgname, k, sim) in [("Gen_WatcherSeq.cfg", 2, None)] + ([("Gen_WatcherSeq.cfg", 4, 20000)] if thorough else []):
+        cfgp = os.path.join(vlib.SPEC, f"Gen_WatcherSeq_{k}_{os.getpid()}.cfg")
+        with open(cfgp, "w") as f:
+            f.write(open(os.path.join(vlib.SPEC, cfgname)).read().replace("K = 2", f"K = {k}"))
+        try:
+            r = vlib.tlc_expect_ok("Gen_WatcherSeq", os.path.basename(cfgp), workers=1, simulate=sim, depth=(k + 1 if sim else None),
+                                   seed=(ctx.seed if sim else None), timeout=900, name=f"gen-watchseq-{k}")
+        finally:
+            os.remove(cfgp)
+        hists = vlib.parse_prints(r, "REPLAY")
+        ctx.add_tlc(f"Gen_WatcherSeq: histories of {k} notifications" + (f" (simulate num={sim})" if sim else " (exhaustive)"), r)
+        if not hists:
+            raise vlib.ToolError("Gen_WatcherSeq produced no history")
+        path = os.path.join(vlib.WORK, f"watchseq-{os.getpid()}.ndjson")
+        with open(path, "w") as f:
+            for h in hists:
+                f.write(json.dumps(h) + "\n")
+        try:
+            rep = worlds.parse_report(vlib.run_bin("amv", ["watchseq-replay", path, vlib.WORK], timeout=900))
+        finally:
+            os.remove(path)
+        ctx.cov["notification_histories_replayed"] = ctx.cov.get("notification_histories_replayed", 0) + rep["cases"]
+        ctx.cov["traces_validated_against_impl"] += rep["cases"]
+        for m in rep["mismatches"][:20]:
+            ctx.violation(f"C12/seq:{m.get('path', '?')[-40:]}", m.get("what"), {"mismatch": m})
     rep = worlds.parse_report(vlib.run_bin("amv", ["watch-real", vlib.WORK], timeout=300))
     ctx.cov["real_inotify_steps"] = rep["cases"]
     for m in rep["mismatches"]:
